@@ -342,8 +342,22 @@ def files():
         lambda a: ["file", a[0], a[1].hex()])
 
 
+def equal_scalars():
+    """containers holding numerically equal scalars of different types side by side
+    (1, 1.0, True, 1+0j; 0, 0.0, False, -0.0)"""
+    def mk(args):
+        k, kinds, cont = args
+        pool = {"int": ["int", str(k)], "float": ["float", float(k).hex()], "bool": ["bool", bool(k)],
+                "complex": ["complex", float(k).hex(), float(0).hex()]}
+        return [cont, [pool[x] for x in kinds]]
+
+    return st.tuples(st.sampled_from([0, 1]), st.lists(st.sampled_from(["int", "float", "bool", "complex"]),
+                                                        min_size=2, max_size=4),
+                     st.sampled_from(["list", "tuple"])).map(mk)
+
+
 def values(max_leaves=12, with_arrays=True, with_funcs=True, with_files=False):
-    leaves = [scalars(), scalars(), sets()]
+    leaves = [scalars(), scalars(), sets(), equal_scalars()]
     if with_arrays:
         leaves.append(arrays())
     if with_funcs:
@@ -431,6 +445,8 @@ def local_mutations(s):
             out.append(("content", ["float", (f + 1.0 if f + 1.0 != f else f * 2 or 1.0).hex()]))
             if f == int(f) and abs(f) < 2**50:
                 out.append(("type", ["int", str(int(f))]))
+            if f in (0.0, 1.0):
+                out.append(("type", ["bool", bool(f)]))
     elif t == "str":
         out += [("content", ["str", s[1] + "x"]), ("type", ["bytes", s[1].encode().hex()]),
                 ("nesting", ["list", [s]])]
